@@ -38,7 +38,7 @@ QUICK_THEORIES = {
     "C03": ["poset", "pend", "diag", "diagjoin", "misc", "inherit", "trans_refl", "joins"],
     "C04": ["poset", "semilattice", "diag", "diagjoin", "diagall", "backidx", "misc", "enumt", "inherit", "joins"],
     "C05": ["poset", "semilattice", "diag", "backidx", "misc", "enumt", "matches"],
-    "C06": ["poset", "diag", "trans_refl", "branches", "logic"],
+    "C06": ["poset", "diag", "trans_refl", "branches", "logic", "unusedty"],
     "C07": ["poset", "semilattice", "pend", "misc", "inherit"],
     "C15": ["enumt", "matches", "matches_rel"],
     "C17": ["inherit", "subset_rules"],
